@@ -172,7 +172,16 @@ class PE:
                     return UNKNOWN
                 if isinstance(left, Sym) or isinstance(right, Sym):
                     # a comparison with a run-time value: not a constant (it used to come out as Python's
-                    # comparison of the carrier object, i.e. False -- seed C01f)
+                    # comparison of the carrier object, i.e. False -- seed C01f); except an identity test against None of a
+                    # value the caller of the evaluator has shown to be an object (self.nonnull: text prefixes)
+                    if isinstance(op, (ast.Is, ast.IsNot)) and (left is None or right is None):
+                        sv = left if isinstance(left, Sym) else right
+                        if isinstance(sv, Sym) and any(sv.text.startswith(p_) for p_ in getattr(self, 'nonnull', ())):
+                            r = isinstance(op, ast.IsNot)
+                            if not r:
+                                return False
+                            left = right
+                            continue
                     return UNKNOWN
                 try:
                     r = {ast.Eq: lambda a, b: a == b, ast.NotEq: lambda a, b: a != b, ast.Lt: lambda a, b: a < b, ast.LtE: lambda a, b: a <= b,
